@@ -37,6 +37,18 @@ for f in sorted(glob.glob(os.path.join(ROOT, "evidence", "C*.json"))):
             if not m.group(2).startswith("closed under"):
                 ax |= {a.strip() for a in m.group(2).split(",")}
     out.append("| %s | %d | %s |" % (ev["property_id"], n, ", ".join(sorted(a.split(".")[-1] for a in ax)) or "none (closed under the global context)"))
+out.append("\n### 9.4c What each check consists of (details in `design_notes/<ID>.md`)\n")
+out.append("| id | theorems in Props | `_partial` | `_refuted` | generated (translator) inputs | deciding method |\n|---|---|---|---|---|---|")
+for f in sorted(glob.glob(os.path.join(ROOT, "harness", "meta", "C*.json"))):
+    m = json.load(open(f)); pid = m["property_id"]
+    props = open(os.path.join(ROOT, "coq", "Props", pid + ".v")).read()
+    nthm = len(re.findall(r"^\s*Theorem\s", props, re.M))
+    partial = re.findall(r"Theorem\s+(\w*partial\w*)", props)
+    refuted = re.findall(r"Theorem\s+(\w*refuted\w*)", props)
+    srcs = props + "".join(open(p).read() for p in glob.glob(os.path.join(ROOT, "coq", "Proofs", pid + "*.v")))
+    gens = sorted({g for grp in re.findall(r"From PyrexGen Require Import ([^.]*)\.", srcs) for g in grp.split()})
+    out.append("| %s | %d | %s | %s | %s | %s |" % (pid, nthm, ", ".join(partial) or "—", ", ".join(refuted) or "—",
+               " ".join(gens) or "— (hand model + correspondence)", cell(m["technique"], 160)))
 text = "\n".join(out)
 d = open(os.path.join(ROOT, "DESIGN.md")).read()
 b, e = "<!-- AUTO:BEGIN -->", "<!-- AUTO:END -->"
